@@ -11,6 +11,7 @@ from . import common
 PROP = "C01"
 KQ = ("NL", "CE", "J", "W0", "CEG")
 KT = KQ + ('NLI', 'CO')
+FX = ("WI",)  # operators applied on the rule-focused slice only
 
 _allow = None
 UNIT_KEYWORDS = {"architecture", "entity", "package", "body", "process", "function", "procedure", "component", "context", "configuration", "block", "generate",
@@ -146,7 +147,7 @@ def main(tier):
     t0 = time.time()
     spec = docspec.spec()
     structure = {r for r, d in spec.items() if d["group"] == "structure"}
-    its = common.pipe_items(tier, KQ, KT, k1=True, k1_rules=structure if tier == "quick" else None)
+    its = common.pipe_items(tier, KQ, KT, one_line=True, focus_extra=FX, k1=True, k1_rules=structure if tier == "quick" else None)
     m = explore.run(its, execute, horizon=90.0, label=PROP)
     uses = sorted(m.extra.get("allowance_uses", ()))
     return report.finish(
@@ -157,7 +158,7 @@ def main(tier):
         ["VSG's own role classes are used to recognise the redundant elements (a mis-classification is C05/C08 territory)",
          "the name after `end` is erased without matching it against the opener; an inserted token must however already occur in the file",
          "bit-string literals are compared case-insensitively (their case is the documented business of bit_string_literal_500/501)"],
-        extra_cov={"allowance_uses_observed": uses, "bound": common.bound_text(tier, KQ, KT)},
+        extra_cov={"allowance_uses_observed": uses, "bound": common.bound_text(tier, KQ, KT, FX)},
         reproduce=reproduce,
         technique="explicit-state exploration of the fix pipeline; per-transition and end-to-end token-sequence equivalence modulo a normal form",
     )
